@@ -193,14 +193,35 @@ func c28Run(line string) string {
 	var live []c28Ent
 	var outs []string
 
+	// verdict: "+" when every marker of every live allocation is intact and the live blocks are pairwise
+	// disjoint, 8-aligned, not below the heap base and inside the memory; else the failing checks.
 	verdict := func() string {
-		for _, e := range live {
+		var x, o, a, b, m string
+		for i, e := range live {
 			for _, off := range c28MarkOffs(e.blk) {
 				v, ok := mem.ReadUint64Le(e.ptr + off)
 				if !ok || v != c28Pat(e.k, off) {
-					return "X"
+					x = "X"
 				}
 			}
+			for _, f := range live[i+1:] {
+				if e.ptr < 8 || f.ptr < 8 ||
+					uint64(e.ptr)-8 < uint64(f.ptr)+uint64(f.blk) && uint64(f.ptr)-8 < uint64(e.ptr)+uint64(e.blk) {
+					o = "O"
+				}
+			}
+			if e.ptr%8 != 0 {
+				a = "A"
+			}
+			if uint64(e.ptr) < uint64(hv[0])+8 {
+				b = "B"
+			}
+			if uint64(e.ptr)+uint64(e.blk) > mem.Size() {
+				m = "M"
+			}
+		}
+		if s := x + o + a + b + m; s != "" {
+			return s
 		}
 		return "+"
 	}
@@ -327,14 +348,14 @@ func c28Run(line string) string {
 // ---- generator ----
 
 func c28Size(r *vhRng) uint32 {
-	switch r.Intn(20) {
-	case 0:
+	switch r.Intn(80) {
+	case 0, 1, 2:
 		return 0
-	case 1:
+	case 3, 4, 5, 6:
 		return uint32(r.Intn(9))
-	case 2:
+	case 7:
 		return MaxPossibleAllocations + uint32(r.Pick(1, 2, 8, 1<<20, 1<<25))
-	case 3:
+	case 8:
 		return uint32(r.U64()) // random 32-bit, mostly too large
 	}
 	// size class k: 2^(k+3); small classes are more likely
@@ -370,14 +391,14 @@ func c28Header(r *vhRng) string {
 		hb = uint32(r.Intn(200))
 	}
 	pages = uint32(r.Pick(0, 1, 1, 1, 2, 3, 17, 512, 513, 1024, 65535, 65536))
-	switch r.Intn(6) {
+	switch r.Intn(12) {
 	case 0:
 		maxp = pages
-	case 1:
+	case 1, 2:
 		maxp = pages + uint32(r.Pick(1, 2, 3, 16, 512, 513))
-	case 2:
+	case 3, 4:
 		maxp = uint32(r.Pick(4, 16, 1024, 1025, 2048))
-	case 3:
+	case 5, 6:
 		maxp = 70000
 	default:
 		maxp = 65536
